@@ -82,38 +82,43 @@ func foldChecks(pkg string, foldTry func(d Lopd, zero int, f func(int, int) fp.T
 
 func ChecksSeq() []Check {
 	type C = fp.Seq[int]
+	// every combinator is called twice on the very same operand slices; the first result is kept as
+	// returned and read again after the second call (core/rerun.go)
+	tw := func(c *Cas, call func() C) []int { return Rerun(c, call, ShowSeq) }
 	return []Check{
 		{"seq.Map", func(c *Cas) {
 			d, f := c.Lopd(), c.F1()
+			s := d.Seq()
 			c.Site("seq.Map")
-			got := seq.Map(d.Seq(), f.Call)
+			got := tw(c, func() C { return seq.Map(s, f.Call) })
 			c.EqL(got, LMap(d.S, f.Call))
 			c.Site("seq.FlatMap")
 			c.EqLD(got, seq.FlatMap(d.Seq(), func(x int) C { return seq.Pure(f.Call(x)) }))
 		}},
 		{"seq.FlatMap", func(c *Cas) {
 			d, k1, k2 := c.Lopd(), c.Lkl(), c.Lkl()
-			a := c.R.IntN(1000)
+			a := c.IntZ()
 			c.Note("a=%d", a)
 			f := func(x int) C { return k1.At(x) }
 			g := func(x int) C { return k2.At(x) }
+			s := d.Seq()
 			c.Site("seq.FlatMap")
-			li := seq.FlatMap(seq.Pure(a), f)
+			li := tw(c, func() C { return seq.FlatMap(seq.Pure(a), f) })
 			c.Law("left-identity", ShowInts(li), ShowInts(f(a)))
 			c.Law("left-identity-vs-reference", ShowInts(li), ShowInts(k1.At(a)))
-			ri := seq.FlatMap(d.Seq(), seq.Pure[int])
+			ri := tw(c, func() C { return seq.FlatMap(s, seq.Pure[int]) })
 			c.Law("right-identity", ShowInts(ri), ShowInts(d.Seq()))
 			c.Law("right-identity-vs-reference", ShowInts(ri), ShowInts(d.S))
-			as1 := seq.FlatMap(seq.FlatMap(d.Seq(), f), g)
+			as1 := tw(c, func() C { return seq.FlatMap(seq.FlatMap(s, f), g) })
 			as2 := seq.FlatMap(d.Seq(), func(x int) C { return seq.FlatMap(f(x), g) })
 			c.Law("associativity", ShowInts(as1), ShowInts(as2))
 			c.Law("associativity-vs-reference", ShowInts(as1), ShowInts(LFlatMap(LFlatMap(d.S, k1.At), k2.At)))
 		}},
 		{"seq.Pure", func(c *Cas) {
-			a := c.R.IntN(1000)
+			a := c.IntZ()
 			c.Shape("pure")
 			c.Site("seq.Pure")
-			c.EqL(seq.Pure(a), []int{a})
+			c.EqL(tw(c, func() C { return seq.Pure(a) }), []int{a})
 		}},
 		{"seq.Flatten", func(c *Cas) {
 			d, k := c.Lopd(), c.Lkl()
@@ -125,7 +130,7 @@ func ChecksSeq() []Check {
 				}
 			}
 			c.Site("seq.Flatten")
-			c.EqL(seq.Flatten(nested), LFlatMap(d.S, k.At))
+			c.EqL(tw(c, func() C { return seq.Flatten(nested) }), LFlatMap(d.S, k.At))
 		}},
 		{"seq.Ap", func(c *Cas) {
 			df, da, g := c.Lopd(), c.Lopd(), c.Fn()
@@ -133,45 +138,54 @@ func ChecksSeq() []Check {
 			for i, cv := range df.S {
 				fs[i] = Curry2(g)(cv)
 			}
+			s := da.Seq()
 			c.Site("seq.Ap")
-			c.EqL(seq.Ap(fs, da.Seq()), LMap2(df.S, da.S, g.Call2))
+			c.EqL(tw(c, func() C { return seq.Ap(fs, s) }), LMap2(df.S, da.S, g.Call2))
 		}},
 		{"seq.Map2", func(c *Cas) {
 			da, db, g := c.Lopd(), c.Lopd(), c.Fn()
+			sa, sb := da.Seq(), db.Seq()
 			c.Site("seq.Map2")
-			c.EqL(seq.Map2(da.Seq(), db.Seq(), g.Call2), LMap2(da.S, db.S, g.Call2))
+			c.EqL(tw(c, func() C { return seq.Map2(sa, sb, g.Call2) }), LMap2(da.S, db.S, g.Call2))
 		}},
 		{"seq.Lift", func(c *Cas) {
 			d, f := c.Lopd(), c.F1()
+			s := d.Seq()
 			c.Site("seq.Lift")
-			c.EqL(seq.Lift(f.Call)(d.Seq()), LMap(d.S, f.Call))
+			lf := seq.Lift(f.Call)
+			c.EqL(tw(c, func() C { return lf(s) }), LMap(d.S, f.Call))
 		}},
 		{"seq.LiftM", func(c *Cas) {
 			d, k := c.Lopd(), c.Lkl()
+			s := d.Seq()
 			c.Site("seq.LiftM")
-			c.EqL(seq.LiftM(func(x int) C { return k.At(x) })(d.Seq()), LFlatMap(d.S, k.At))
+			lf := seq.LiftM(func(x int) C { return k.At(x) })
+			c.EqL(tw(c, func() C { return lf(s) }), LFlatMap(d.S, k.At))
 		}},
 		{"seq.Compose", func(c *Cas) {
 			k1, k2 := c.Lkl(), c.Lkl()
-			a := c.R.IntN(1000)
+			a := c.IntZ()
 			c.Note("a=%d", a)
 			c.Shape("k")
 			c.Site("seq.Compose")
-			got := seq.Compose(func(x int) C { return k1.At(x) }, func(x int) C { return k2.At(x) })(a)
+			kk := seq.Compose(func(x int) C { return k1.At(x) }, func(x int) C { return k2.At(x) })
+			got := tw(c, func() C { return kk(a) })
 			c.EqL(got, LFlatMap(k1.At(a), k2.At))
 		}},
 		{"seq.ComposePure", func(c *Cas) {
 			f := c.F1()
-			a := c.R.IntN(1000)
+			a := c.IntZ()
 			c.Note("a=%d", a)
 			c.Shape("pure")
 			c.Site("seq.ComposePure")
-			c.EqL(seq.ComposePure(f.Call)(a), []int{f.Call(a)})
+			kk := seq.ComposePure(f.Call)
+			c.EqL(tw(c, func() C { return kk(a) }), []int{f.Call(a)})
 		}},
 		{"seq.FilterMap", func(c *Cas) {
 			d, k := c.Lopd(), c.Okl()
+			s := d.Seq()
 			c.Site("seq.FilterMap")
-			c.EqL(seq.FilterMap(d.Seq(), k.Opt), LFlatMap(d.S, func(x int) []int {
+			c.EqL(tw(c, func() C { return seq.FilterMap(s, k.Opt) }), LFlatMap(d.S, func(x int) []int {
 				if v, ok := k.At(x); ok {
 					return []int{v}
 				}
@@ -192,14 +206,14 @@ func ChecksList() []Check {
 		{"list.Map", func(c *Cas) {
 			d, f := c.Lopd(), c.F1()
 			c.Site("list.Map")
-			got := ListInts(list.Map(d.List(), f.Call))
+			got := c.Twice(func() []int { return ListInts(list.Map(d.List(), f.Call)) })
 			c.EqL(got, LMap(d.S, f.Call))
 			c.Site("list.FlatMap")
 			c.EqLD(got, ListInts(list.FlatMap(d.List(), func(x int) C { return list.Of(f.Call(x)) })))
 		}},
 		{"list.FlatMap", func(c *Cas) {
 			d, k1, k2 := c.Lopd(), c.Lkl(), c.Lkl()
-			a := c.R.IntN(1000)
+			a := c.IntZ()
 			c.Note("a=%d", a)
 			f, g := kf(k1, c.R.IntN(4)), kf(k2, c.R.IntN(4))
 			o := func(l C) string { return ShowInts(ListInts(l)) }
@@ -216,10 +230,10 @@ func ChecksList() []Check {
 			c.Law("associativity-vs-reference", as1, ShowInts(LFlatMap(LFlatMap(d.S, k1.At), k2.At)))
 		}},
 		{"list.Of", func(c *Cas) {
-			a := c.R.IntN(1000)
+			a := c.IntZ()
 			c.Shape("pure")
 			c.Site("list.Of")
-			c.EqL(ListInts(list.Of(a)), []int{a})
+			c.EqL(c.Twice(func() []int { return ListInts(list.Of(a)) }), []int{a})
 		}},
 		{"list.Flatten", func(c *Cas) {
 			d, k := c.Lopd(), c.Lkl()
@@ -227,7 +241,7 @@ func ChecksList() []Check {
 			c.Site("list.Map")
 			nested := list.Map(d.List(), kf(k, v))
 			c.Site("list.Flatten")
-			c.EqL(ListInts(list.Flatten(nested)), LFlatMap(d.S, k.At))
+			c.EqL(c.Twice(func() []int { return ListInts(list.Flatten(nested)) }), LFlatMap(d.S, k.At))
 		}},
 		{"list.Ap", func(c *Cas) {
 			df, da, g := c.Lopd(), c.Lopd(), c.Fn()
@@ -236,39 +250,39 @@ func ChecksList() []Check {
 				fs[i] = Curry2(g)(cv)
 			}
 			c.Site("list.Ap")
-			c.EqL(ListInts(list.Ap(list.Of(fs...), da.List())), LMap2(df.S, da.S, g.Call2))
+			c.EqL(c.Twice(func() []int { return ListInts(list.Ap(list.Of(fs...), da.List())) }), LMap2(df.S, da.S, g.Call2))
 		}},
 		{"list.Map2", func(c *Cas) {
 			da, db, g := c.Lopd(), c.Lopd(), c.Fn()
 			c.Site("list.Map2")
-			c.EqL(ListInts(list.Map2(da.List(), db.List(), g.Call2)), LMap2(da.S, db.S, g.Call2))
+			c.EqL(c.Twice(func() []int { return ListInts(list.Map2(da.List(), db.List(), g.Call2)) }), LMap2(da.S, db.S, g.Call2))
 		}},
 		{"list.Lift", func(c *Cas) {
 			d, f := c.Lopd(), c.F1()
 			c.Site("list.Lift")
-			c.EqL(ListInts(list.Lift(f.Call)(d.List())), LMap(d.S, f.Call))
+			c.EqL(c.Twice(func() []int { return ListInts(list.Lift(f.Call)(d.List())) }), LMap(d.S, f.Call))
 		}},
 		{"list.Compose", func(c *Cas) {
 			k1, k2 := c.Lkl(), c.Lkl()
-			a := c.R.IntN(1000)
+			a := c.IntZ()
 			c.Note("a=%d", a)
 			c.Shape("k")
 			c.Site("list.Compose")
 			got := list.Compose(kf(k1, c.R.IntN(4)), kf(k2, c.R.IntN(4)))(a)
-			c.EqL(ListInts(got), LFlatMap(k1.At(a), k2.At))
+			c.EqL(c.Twice(func() []int { return ListInts(got) }), LFlatMap(k1.At(a), k2.At))
 		}},
 		{"list.ComposePure", func(c *Cas) {
 			f := c.F1()
-			a := c.R.IntN(1000)
+			a := c.IntZ()
 			c.Note("a=%d", a)
 			c.Shape("pure")
 			c.Site("list.ComposePure")
-			c.EqL(ListInts(list.ComposePure(f.Call)(a)), []int{f.Call(a)})
+			c.EqL(c.Twice(func() []int { return ListInts(list.ComposePure(f.Call)(a)) }), []int{f.Call(a)})
 		}},
 		{"list.FilterMap", func(c *Cas) {
 			d, k := c.Lopd(), c.Okl()
 			c.Site("list.FilterMap")
-			c.EqL(ListInts(list.FilterMap(d.List(), k.Opt)), LFlatMap(d.S, func(x int) []int {
+			c.EqL(c.Twice(func() []int { return ListInts(list.FilterMap(d.List(), k.Opt)) }), LFlatMap(d.S, func(x int) []int {
 				if v, ok := k.At(x); ok {
 					return []int{v}
 				}
@@ -281,7 +295,7 @@ func ChecksList() []Check {
 			c.Site("list.Map")
 			tf := list.Map(df.List(), Curry2(g))
 			c.Site("list.Flap")
-			c.EqL(ListInts(list.Flap(tf)(xs[0])), LMap(df.S, func(cv int) int { return g.Call(cv, xs[0]) }))
+			c.EqL(c.Twice(func() []int { return ListInts(list.Flap(tf)(xs[0])) }), LMap(df.S, func(cv int) int { return g.Call(cv, xs[0]) }))
 		}},
 		{"list.Flap2", func(c *Cas) {
 			df, g := c.Lopd(), c.Fn()
@@ -289,26 +303,26 @@ func ChecksList() []Check {
 			c.Site("list.Map")
 			tf := list.Map(df.List(), Curry3(g))
 			c.Site("list.Flap2")
-			c.EqL(ListInts(list.Flap2(tf)(xs[0])(xs[1])), LMap(df.S, func(cv int) int { return g.Call(cv, xs[0], xs[1]) }))
+			c.EqL(c.Twice(func() []int { return ListInts(list.Flap2(tf)(xs[0])(xs[1])) }), LMap(df.S, func(cv int) int { return g.Call(cv, xs[0], xs[1]) }))
 		}},
 		{"list.FlapMap", func(c *Cas) {
 			d, g := c.Lopd(), c.Fn()
 			xs := c.Ints(1)
 			c.Site("list.FlapMap")
-			c.EqL(ListInts(list.FlapMap(g.Call2, d.List())(xs[0])), LMap(d.S, func(a int) int { return g.Call(a, xs[0]) }))
+			c.EqL(c.Twice(func() []int { return ListInts(list.FlapMap(g.Call2, d.List())(xs[0])) }), LMap(d.S, func(a int) int { return g.Call(a, xs[0]) }))
 		}},
 		{"list.Method1", func(c *Cas) {
 			d, g := c.Lopd(), c.Fn()
 			xs := c.Ints(1)
 			c.Site("list.Method1")
-			c.EqL(ListInts(list.Method1(d.List(), g.Call2)(xs[0])), LMap(d.S, func(a int) int { return g.Call(a, xs[0]) }))
+			c.EqL(c.Twice(func() []int { return ListInts(list.Method1(d.List(), g.Call2)(xs[0])) }), LMap(d.S, func(a int) int { return g.Call(a, xs[0]) }))
 		}},
 		{"list.Method2", func(c *Cas) {
 			d, g := c.Lopd(), c.Fn()
 			xs := c.Ints(2)
 			c.Site("list.Method2")
 			got := list.Method2(d.List(), func(a, b, cc int) int { return g.Call(a, b, cc) })(xs[0], xs[1])
-			c.EqL(ListInts(got), LMap(d.S, func(a int) int { return g.Call(a, xs[0], xs[1]) }))
+			c.EqL(c.Twice(func() []int { return ListInts(got) }), LMap(d.S, func(a int) int { return g.Call(a, xs[0], xs[1]) }))
 		}},
 	}
 }
@@ -321,14 +335,14 @@ func ChecksIterator() []Check {
 		{"iterator.Map", func(c *Cas) {
 			d, f := c.Lopd(), c.F1()
 			c.Site("iterator.Map")
-			got := IterInts(iterator.Map(d.Iter(), f.Call))
+			got := c.Twice(func() []int { return IterInts(iterator.Map(d.Iter(), f.Call)) })
 			c.EqL(got, LMap(d.S, f.Call))
 			c.Site("iterator.FlatMap")
 			c.EqLD(got, IterInts(DefIterMap(d.Iter(), f.Call)))
 		}},
 		{"iterator.FlatMap", func(c *Cas) {
 			d, k1, k2 := c.Lopd(), c.Lkl(), c.Lkl()
-			a := c.R.IntN(1000)
+			a := c.IntZ()
 			c.Note("a=%d", a)
 			f, g := kf(k1, c.R.IntN(4)), kf(k2, c.R.IntN(4))
 			o := func(l IT) string { return ShowInts(IterInts(l)) }
@@ -345,45 +359,43 @@ func ChecksIterator() []Check {
 			c.Law("associativity-vs-reference", as1, ShowInts(LFlatMap(LFlatMap(d.S, k1.At), k2.At)))
 		}},
 		{"iterator.Of", func(c *Cas) {
-			a := c.R.IntN(1000)
+			a := c.IntZ()
 			c.Shape("pure")
 			c.Site("iterator.Of")
-			c.EqL(IterInts(iterator.Of(a)), []int{a})
+			c.EqL(c.Twice(func() []int { return IterInts(iterator.Of(a)) }), []int{a})
 		}},
 		{"iterator.Flatten", func(c *Cas) {
 			d, k := c.Lopd(), c.Lkl()
 			v := c.R.IntN(4)
-			c.Site("iterator.Map")
-			nested := iterator.Map(d.Iter(), kf(k, v))
 			c.Site("iterator.Flatten")
-			c.EqL(IterInts(iterator.Flatten(nested)), LFlatMap(d.S, k.At))
+			c.EqL(c.Twice(func() []int { return IterInts(iterator.Flatten(iterator.Map(d.Iter(), kf(k, v)))) }), LFlatMap(d.S, k.At))
 		}},
 		{"iterator.Lift", func(c *Cas) {
 			d, f := c.Lopd(), c.F1()
 			c.Site("iterator.Lift")
-			c.EqL(IterInts(iterator.Lift(f.Call)(d.Iter())), LMap(d.S, f.Call))
+			c.EqL(c.Twice(func() []int { return IterInts(iterator.Lift(f.Call)(d.Iter())) }), LMap(d.S, f.Call))
 		}},
 		{"iterator.Compose", func(c *Cas) {
 			k1, k2 := c.Lkl(), c.Lkl()
-			a := c.R.IntN(1000)
+			a := c.IntZ()
 			c.Note("a=%d", a)
 			c.Shape("k")
 			c.Site("iterator.Compose")
-			got := iterator.Compose(kf(k1, c.R.IntN(4)), kf(k2, c.R.IntN(4)))(a)
-			c.EqL(IterInts(got), LFlatMap(k1.At(a), k2.At))
+			kk := iterator.Compose(kf(k1, c.R.IntN(4)), kf(k2, c.R.IntN(4)))
+			c.EqL(c.Twice(func() []int { return IterInts(kk(a)) }), LFlatMap(k1.At(a), k2.At))
 		}},
 		{"iterator.ComposePure", func(c *Cas) {
 			f := c.F1()
-			a := c.R.IntN(1000)
+			a := c.IntZ()
 			c.Note("a=%d", a)
 			c.Shape("pure")
 			c.Site("iterator.ComposePure")
-			c.EqL(IterInts(iterator.ComposePure(f.Call)(a)), []int{f.Call(a)})
+			c.EqL(c.Twice(func() []int { return IterInts(iterator.ComposePure(f.Call)(a)) }), []int{f.Call(a)})
 		}},
 		{"iterator.FilterMap", func(c *Cas) {
 			d, k := c.Lopd(), c.Okl()
 			c.Site("iterator.FilterMap")
-			c.EqL(IterInts(iterator.FilterMap(d.Iter(), k.Opt)), LFlatMap(d.S, func(x int) []int {
+			c.EqL(c.Twice(func() []int { return IterInts(iterator.FilterMap(d.Iter(), k.Opt)) }), LFlatMap(d.S, func(x int) []int {
 				if v, ok := k.At(x); ok {
 					return []int{v}
 				}
@@ -394,7 +406,7 @@ func ChecksIterator() []Check {
 		{"iterator.Ap", func(c *Cas) {
 			df, da, g := c.Lopd(), c.Lopd(), c.Fn()
 			c.Site("iterator.Ap")
-			got := IterInts(iterator.Ap(IterFuncs(df, g), da.Iter()))
+			got := c.Twice(func() []int { return IterInts(iterator.Ap(IterFuncs(df, g), da.Iter())) })
 			c.Site("iterator.FlatMap")
 			c.EqLD(got, IterInts(DefIterAp(IterFuncs(df, g), da.Iter())))
 			if len(df.S) <= 1 { // no sharing: the list-monad product applies
@@ -404,7 +416,7 @@ func ChecksIterator() []Check {
 		{"iterator.Map2", func(c *Cas) {
 			da, db, g := c.Lopd(), c.Lopd(), c.Fn()
 			c.Site("iterator.Map2")
-			got := IterInts(iterator.Map2(da.Iter(), db.Iter(), g.Call2))
+			got := c.Twice(func() []int { return IterInts(iterator.Map2(da.Iter(), db.Iter(), g.Call2)) })
 			c.Site("iterator.FlatMap")
 			c.EqLD(got, IterInts(DefIterMap2(da.Iter(), db.Iter(), g.Call2)))
 			if len(da.S) <= 1 {
@@ -415,7 +427,7 @@ func ChecksIterator() []Check {
 			df, g := c.Lopd(), c.Fn()
 			xs := c.Ints(1)
 			c.Site("iterator.Flap")
-			got := IterInts(iterator.Flap(IterFuncs(df, g))(xs[0]))
+			got := c.Twice(func() []int { return IterInts(iterator.Flap(IterFuncs(df, g))(xs[0])) })
 			c.Site("iterator.FlatMap")
 			c.EqLD(got, IterInts(DefIterFlap(IterFuncs(df, g), xs[0])))
 			if len(df.S) <= 1 {
@@ -427,7 +439,7 @@ func ChecksIterator() []Check {
 			xs := c.Ints(2)
 			mk := func() fp.Iterator[fp.Func1[int, fp.Func1[int, int]]] { return iterator.Map(df.Iter(), Curry3(g)) }
 			c.Site("iterator.Flap2")
-			got := IterInts(iterator.Flap2(mk())(xs[0])(xs[1]))
+			got := c.Twice(func() []int { return IterInts(iterator.Flap2(mk())(xs[0])(xs[1])) })
 			c.Site("iterator.FlatMap")
 			c.EqLD(got, IterInts(DefIterFlap(DefIterAp(mk(), iterator.Of(xs[0])), xs[1])))
 			if len(df.S) <= 1 {
@@ -438,7 +450,7 @@ func ChecksIterator() []Check {
 			d, g := c.Lopd(), c.Fn()
 			xs := c.Ints(1)
 			c.Site("iterator.FlapMap")
-			got := IterInts(iterator.FlapMap(g.Call2, d.Iter())(xs[0]))
+			got := c.Twice(func() []int { return IterInts(iterator.FlapMap(g.Call2, d.Iter())(xs[0])) })
 			c.Site("iterator.FlatMap")
 			c.EqLD(got, IterInts(DefIterFlap(DefIterMap(d.Iter(), Curry2(g)), xs[0])))
 			if len(d.S) <= 1 {
@@ -449,7 +461,7 @@ func ChecksIterator() []Check {
 			d, g := c.Lopd(), c.Fn()
 			xs := c.Ints(1)
 			c.Site("iterator.Method1")
-			got := IterInts(iterator.Method1(d.Iter(), g.Call2)(xs[0]))
+			got := c.Twice(func() []int { return IterInts(iterator.Method1(d.Iter(), g.Call2)(xs[0])) })
 			c.Site("iterator.FlatMap")
 			c.EqLD(got, IterInts(DefIterFlap(DefIterMap(d.Iter(), Curry2(g)), xs[0])))
 			if len(d.S) <= 1 {
@@ -460,7 +472,9 @@ func ChecksIterator() []Check {
 			d, g := c.Lopd(), c.Fn()
 			xs := c.Ints(2)
 			c.Site("iterator.Method2")
-			got := IterInts(iterator.Method2(d.Iter(), func(a, b, cc int) int { return g.Call(a, b, cc) })(xs[0], xs[1]))
+			got := c.Twice(func() []int {
+				return IterInts(iterator.Method2(d.Iter(), func(a, b, cc int) int { return g.Call(a, b, cc) })(xs[0], xs[1]))
+			})
 			c.Site("iterator.FlatMap")
 			c.EqLD(got, IterInts(DefIterFlap(DefIterAp(DefIterMap(d.Iter(), Curry3(g)), iterator.Of(xs[0])), xs[1])))
 			if len(d.S) <= 1 {
